@@ -484,3 +484,7 @@ def run(report, repo):
   from sa.rules import c01, c03  # pylint: disable=g-import-not-at-top
   report.guard(c01.r4_teardown_ladder, report, repo, rule='C08-R4l')
   report.guard(c03.r5_thread_proc, report, repo)
+  from sa.rules import extra5 as _e5  # pylint: disable=g-import-not-at-top
+  from sa.rules import c01 as _c01  # pylint: disable=g-import-not-at-top
+  report.guard(_c01.r6_internal_error, report, repo, rule='C08-R7')
+  report.guard(_e5.executor_wait_is_unbounded, report, repo, 'C08-R8')
